@@ -59,7 +59,19 @@ def c09(ck):
         return ({"tag": tag, "op": last.get("ev"), "entry": bool(last.get("entry"))},
                 f"destination differs from the image after `{ops[-1]}` (history {ops}): observed {json.dumps(last.get('obs'))[:400]}")
     util.judge_batch(ck, "Trace_DirOps", out, "replayed TLC histories + random histories on DirSection over a recording destination (start offsets 0..65537, pre-existing content)", "DirOps", describe)
-    ck.cov["distinct_nontrivial"] = len(hists) + (300 if quick else 5000)
+    # impl -> spec on real dumps: every write_to_file of full dumps of shaped targets, at non-zero start offsets
+    from . import dumps, p_dump
+    runs = dumps.run_scenarios(ck, p_dump._combo_scenarios(quick), "c09_dumps")
+    devs = []
+    for r in runs:
+        for d in r["dumps"]:
+            if d["outcome"] != "ok":
+                raise core.ToolError(f"C09: dump of scenario {r['id']} did not succeed: {d.get('error')}")
+            devs += dumps.dirops_events(d, r["id"])
+    dout = os.path.join(ck.work, "dirops_dumps.ndjson")
+    core.export_lines(devs, dout)
+    util.judge_batch(ck, "Trace_DirOps", dout, "every write_to_file of real dumps (18 streams each) as DirOps actions; destination compared with the image at every flush", "DirOps", describe)
+    ck.cov["distinct_nontrivial"] = len(hists) + (300 if quick else 5000) + len(runs)
     ck.cov["rule"] = "one case = one history of DirSection calls on a fresh recording destination; distinct by construction (TLC enumerates all; random ones are seeded)"
     ck.cov["exhaustive"] = True
     ck.cov["decided_by"] = {"call protocol, positions, extents, prefix lengths": "spec", "byte equality destination vs image (longest common prefix)": "comparator"}
